@@ -305,4 +305,4 @@ def correspondence(ctx):
         e = ", ".join(rel(*v) for v in vs)
         check(ctx, "openssl", e, VR.OpensslVersionRange.from_native, V.OpensslVersion,
               lambda t: tuple(map(int, t.split("."))) in vs, list(vs), len(vs) >= 2)
-    ctx.sample({"native": "^1.2.3", "vers": str(VR.NpmVersionRange.from_native("^1.2.3"))})
+    ctx.sample({"native": "^1.2.3", "vers": common.safe(lambda: VR.NpmVersionRange.from_native("^1.2.3"))})
